@@ -42,50 +42,12 @@ RULE += (' ' +
          'reply and as allowed version, aliased spellings of one version, '
          'free-text version names with %, {}, newline, quotes; tokens whose '
          'profile (name) is set after the Connection was constructed and '
-         'before connect(). ')
-RULE += (' ' +
-         'Added in later rounds: every supported version name and number as '
-         'reply and as allowed version, aliased spellings of one version, '
-         'free-text version names with %, {}, newline, quotes; tokens whose '
-         'profile (name) is set after the Connection was constructed and '
-         'before connect(). Round 11: host names with several address '
-         'records per family; status queries while the harness-owned wall '
-         'clock steps back an hour per reading or is frozen. ')
-RULE += (' ' +
-         'Added in later rounds: every supported version name and number as '
-         'reply and as allowed version, aliased spellings of one version, '
-         'free-text version names with %, {}, newline, quotes; tokens whose '
-         'profile (name) is set after the Connection was constructed and '
-         'before connect(). Round 11: host names with several address '
-         'records per family; status queries while the harness-owned wall '
-         'clock steps back an hour per reading or is frozen. ')
-RULE += (' ' +
-         'Added in later rounds: every supported version name and number as '
-         'reply and as allowed version, aliased spellings of one version, '
-         'free-text version names with %, {}, newline, quotes; tokens whose '
-         'profile (name) is set after the Connection was constructed and '
-         'before connect(). Round 11: host names with several address '
-         'records per family; status queries while the harness-owned wall '
-         'clock steps back an hour per reading or is frozen. ')
-RULE += (' ' +
-         'Added in later rounds: every supported version name and number as '
-         'reply and as allowed version, aliased spellings of one version, '
-         'free-text version names with %, {}, newline, quotes; tokens whose '
-         'profile (name) is set after the Connection was constructed and '
-         'before connect(). Round 11: host names with several address '
-         'records per family; status queries while the harness-owned wall '
-         'clock steps back an hour per reading or is frozen. Round 14: '
-         'status reply frames of every length 80-530 and around 2^14. ')
-RULE += (' ' +
-         'Added in later rounds: every supported version name and number as '
-         'reply and as allowed version, aliased spellings of one version, '
-         'free-text version names with %, {}, newline, quotes; tokens whose '
-         'profile (name) is set after the Connection was constructed and '
          'before connect(). Round 11: host names with several address '
          'records per family; status queries while the harness-owned wall '
          'clock steps back an hour per reading or is frozen. Round 14: '
          'status reply frames of every length 80-530 and around 2^14. Round '
-         '15: status() handlers passed by position in half of the cases. ')
+         '15: status() handlers passed by position in half of the cases. '
+         'Round 16: bare IPv6 literal hosts with ports 1 / 25565 / 65535. ')
 LEVEL_TEXT = ('Model-based testing of the negotiation logic over generated '
               'configurations x server behaviours on an in-memory network, '
               'with every supported protocol used at least once as the '
